@@ -1,5 +1,7 @@
 import AsynqModel.Proofs.P7Final
 import AsynqModel.Proofs.P7Bridge
+import AsynqModel.Proofs.P7Cold
+import AsynqModel.Theorems.Acyclic
 /-!
 # C07 / C06, second part: "after the computation ends, normally or with an error, every overridden value is back to
 # what it was before", and "ending with a pause on exit"
@@ -22,9 +24,12 @@ resumed contexts onto the task stack; this follows from acyclicity of the await 
 * `C07_restored_of_norevisit`   - with `ctl = []` every scoped value is back to its default 0;
 * `C07_svals_zero_of_norevisit` - every `.svals` event of the trace reports only zeros.
 
-The unconditional forms `C07_restored_at_top : Reach s → ... → ∀ var, s.svGet var = 0` and `C07_lifo` need that
-`Reach s → ReachNR s` (a flagged task is never pushed again between its two visits), which is acyclicity;
-`C07_norevisit_of_cold` reduces it to two local conditions on the states that push onto the task stack.
+`C07_norevisit_of_cold` reduces `NoRevisit` to two local conditions on the states that push onto the task stack.
+
+UNCONDITIONAL FOR WELL-SCOPED PROGRAMS (`P10.WSReach s`: reachable when every top-level computation is
+`P10.WellScoped` - every `Ref` names a future that exists; an ill-scoped program CAN build an await cycle, see
+`Theorems/Acyclic.lean`, `exBad`): `C07_noRevisit` (`WSReach s → ReachNR s`, from the acyclicity of the await graph,
+P10), and with it `C07_lifo`, `C07_values`, `C07_restored_at_top`, `C07_svals_zero`.
 -/
 namespace AsynqModel.Core
 open P5 P7
@@ -93,6 +98,38 @@ theorem C07_norevisit_of_cold
     (s : State) (h : Reach s) (hg : s.guardFired = false) (hna : Inv.noNonAsync s = true) : ReachNR s :=
   reachNR_of_cold (fun s h hg hna => hc s h hg (noNonAsync_of_na hna)) h hg (na_of_noNonAsync hna)
 
+/-! ### well-scoped programs: `NoRevisit` holds -/
+
+/-- **C07_noRevisit**: in a well-scoped program no step pushes a task with resumed contexts onto the task stack
+    (a task whose contexts are resumed is on the stack below entries that all precede it in the creation order, while
+    everything pushed - a dependency of the top task, the root of a nested `wait_for` - precedes the top task). -/
+theorem C07_noRevisit (s : State) (h : P10.WSReach s) (hg : s.guardFired = false) (hna : Inv.noNonAsync s = true) :
+    ReachNR s :=
+  reachNR_of_ws h hg (na_of_noNonAsync hna)
+
+/-- **C07_lifo**: the resume/pause events of ALL contexts form one well-bracketed word. -/
+theorem C07_lifo (s : State) (h : P10.WSReach s) (hg : s.guardFired = false) (hna : Inv.noNonAsync s = true) :
+    lifo s.trace = some (rstack s) ∧
+    (∀ post pre c, s.trace = post ++ .ctx false c :: pre → ∃ R, lifo pre = some (c :: R)) ∧
+    (∀ post pre c, s.trace = post ++ .ctx true c :: pre → ∃ R, lifo pre = some R ∧ c ∉ R) :=
+  C07_lifo_of_norevisit s (C07_noRevisit s h hg hna) hg hna
+
+/-- **C07_values**: every scoped value is the value of the innermost resumed override. -/
+theorem C07_values (s : State) (h : P10.WSReach s) (hg : s.guardFired = false) (hna : Inv.noNonAsync s = true) :
+    (∀ var, s.svGet var = expect s (rstack s) var) ∧ svChain s (rstack s) ∧ (rstack s).Nodup :=
+  C07_values_of_norevisit s (C07_noRevisit s h hg hna) hg hna
+
+/-- **C07_restored_at_top**: after the computation ends, normally or with an error, every overridden value is back to
+    what it was before (its default). -/
+theorem C07_restored_at_top (s : State) (h : P10.WSReach s) (hg : s.guardFired = false)
+    (hna : Inv.noNonAsync s = true) (hctl : s.ctl = []) : ∀ var, s.svGet var = 0 :=
+  C07_restored_of_norevisit s (C07_noRevisit s h hg hna) hg hna hctl
+
+/-- **C07_svals_zero**: every `.svals` event of the trace reports only zeros. -/
+theorem C07_svals_zero (s : State) (h : P10.WSReach s) (hg : s.guardFired = false) (hna : Inv.noNonAsync s = true)
+    (l : List (Nat × Val)) (hl : Event.svals l ∈ s.trace) : ∀ p ∈ l, p.2 = Val.a 0 :=
+  C07_svals_zero_of_norevisit s (C07_noRevisit s h hg hna) hg hna l hl
+
 /-! ### non-vacuity -/
 
 /-- two nested overrides (both of variable 1), blocks on a batch item -/
@@ -125,6 +162,15 @@ def C07b_final : State := runFuel 100 C07b_init
 theorem C07b_final_reachNR : ReachNR C07b_final := by
   have h : (runFuelNR 100 C07b_init).isSome = true := by decide
   exact reachNR_of_checked 100 _ (ReachNR.init _ _ _) h
+
+/-- the program is well-scoped, so its run is `WSReach` and the unconditional theorems apply to it -/
+example : P10.WellScoped C07b_prog 0 0 = true := by decide
+
+theorem C07b_final_ws : P10.WSReach C07b_final :=
+  wsreach_runFuel {} _ [] (by intro p hp; simp at hp; subst hp; decide) 100
+
+example : ∀ var, C07b_final.svGet var = 0 :=
+  C07_restored_at_top _ C07b_final_ws (by decide) (by decide) (by decide)
 
 /-- the hypotheses of all theorems hold for the end state, and it has contexts -/
 example : C07b_final.isDone = true ∧ C07b_final.stuck = none ∧ C07b_final.guardFired = false ∧
